@@ -219,3 +219,174 @@ Theorem C01_discovery_onramp_unfixed_refuted :
     alookup k (dc_onramp (discovery_outcome F dest aos)) = None.
 Proof. exact discovery_onramp_unfixed_refuted. Qed.
 Print Assumptions C01_discovery_onramp_unfixed_refuted.
+
+Require Import Verif.Proofs.BaseP Verif.Proofs.JudgeSoundC01P Verif.Check.C01_check.
+(* ---- the executable properties of Check/C01_check.v are the property (judge soundness) ---- *)
+(* Vocabulary added by Proofs/JudgeSoundC01P.v:
+     field_spec get aos thr_of out   = [out] has unique keys and  k |-> v is in it  <=>  k has a threshold thr and
+                                       agreed_value get aos k thr v  (the shape of C01_fchain / C01_per_chain / C01_discovery);
+     consensus_clauses F dest acc r  = the conclusions of C01_dest_required / C01_fchain / C01_per_chain for an ARBITRARY
+                                       answer r over the accepted observations acc (spelled out in C01_judge_mr_sound);
+     discovery_clauses F dest aos c  = the five address-map clauses of C01_discovery for an ARBITRARY Sync argument c
+                                       (spelled out in C01_judge_disc_sound).
+   [select vs aos] = the observations of aos whose verdict in vs is true. *)
+
+(* the heart of every sink: the executable per-map check (count DISTINCT reporters, unique value over the threshold,
+   unique keys) holds exactly when the map is the one the theorems describe *)
+Theorem C01_judge_field_ok_iff : forall (O V : Type) (e : V -> V -> bool),
+  (forall x y, reflect (x = y) (e x y)) ->
+  forall (get : O -> list (N * V)) (aos : list (N * O)) (thr_of : N -> option N),
+  (forall k t, thr_of k = Some t -> (0 < t)%N) ->
+  forall out, field_ok e get aos thr_of out = true <->
+    NoDup (map fst out) /\
+    forall k v, alookup k out = Some v <-> exists thr, thr_of k = Some thr /\ agreed_value get aos k thr v.
+Proof. exact (fun O V => @field_ok_iff O V). Qed.
+Print Assumptions C01_judge_field_ok_iff.
+
+(* sink C01_mr. Premises of (a): one observation per oracle (libocr), FChain is a Go map *)
+Theorem C01_judge_mr_model_passes : forall F dest retry roles known aos,
+  NoDup (map fst aos) ->
+  (forall o ob, In (o, ob) aos -> NoDup (map fst (o_fchain ob))) ->
+  mr_ok (F, dest, retry, roles, known, aos) (mr_model (F, dest, retry, roles, known, aos)) = true.
+Proof. exact mr_model_passes. Qed.
+Print Assumptions C01_judge_mr_model_passes.
+
+(* an implementation answer (verdicts vs, consensus r) that passes mr_judge satisfies, over the observations it let
+   through: C01_one_vote (roots / on-ramp / off-ramp / RMN votes), C01_designated, positive fChain claims, and
+   C01_dest_required / C01_fchain / C01_per_chain with at most one value per key — no premise *)
+Theorem C01_judge_mr_sound : forall F dest retry roles known aos vs r,
+  mr_ok (F, dest, retry, roles, known, aos) (vs, r) = true ->
+  let acc := select vs aos in
+  length vs = length aos /\ NoDup (map fst aos) /\ NoDup (map fst acc) /\
+  (forall k, NoDup (map fst (votes roots_kv acc k)) /\ NoDup (map fst (votes onramp_kv acc k)) /\
+             NoDup (map fst (votes offramp_kv acc k)) /\ NoDup (map fst (votes (rmn_kv dest) acc k))) /\
+  (forall o k,
+     (forall v, reported roots_kv acc o k v -> designated roles k o) /\
+     (forall v, reported onramp_kv acc o k v -> designated roles k o) /\
+     (forall v, reported offramp_kv acc o k v -> designated roles dest o) /\
+     (forall v, reported (rmn_kv dest) acc o k v -> k = dest /\ designated roles dest o)) /\
+  (forall o k f, reported fchain_kv acc o k f -> (0 < f)%Z) /\
+  match r with
+  | Err => forall f, ~ agreed_value fchain_kv acc dest (two_f_plus_1 F) f
+  | Ok c =>
+      (forall k f, alookup k (c_fchain c) = Some f <-> agreed_value fchain_kv acc k (two_f_plus_1 F) f) /\
+      (exists fd, alookup dest (c_fchain c) = Some fd) /\
+      (NoDup (map fst (c_fchain c)) /\ NoDup (map fst (c_roots c)) /\ NoDup (map fst (c_onramp c)) /\
+       NoDup (map fst (c_offramp c)) /\ NoDup (map fst (c_rmn c))) /\
+      forall k,
+        (forall v, alookup k (c_roots c) = Some v <->
+           exists f, alookup k (c_fchain c) = Some f /\ agreed_value roots_kv acc k (two_f_plus_1 f) v) /\
+        (forall v, alookup k (c_onramp c) = Some v <->
+           exists f, alookup k (c_fchain c) = Some f /\ agreed_value onramp_kv acc k (two_f_plus_1 f) v) /\
+        (forall v, alookup k (c_offramp c) = Some v <->
+           exists fd, alookup dest (c_fchain c) = Some fd /\ agreed_value offramp_kv acc k (two_f_plus_1 fd) v) /\
+        (forall v, alookup k (c_rmn c) = Some v <->
+           exists f, alookup k (c_fchain c) = Some f /\ agreed_value (rmn_kv dest) acc k (two_f_plus_1 f) v)
+  | _ => False
+  end.
+Proof. exact mr_sound. Qed.
+Print Assumptions C01_judge_mr_sound.
+
+(* transfer of C01_byzantine / C01_byzantine_offramp to an arbitrary answer that passes mr_judge *)
+Theorem C01_judge_mr_sound_byzantine : forall F dest retry roles known aos vs c,
+  mr_ok (F, dest, retry, roles, known, aos) (vs, Ok c) = true ->
+  let acc := select vs aos in
+  forall k f B,
+    alookup k (c_fchain c) = Some f -> (f < 2^63)%Z -> NoDup B -> (length B <= Z.to_nat f)%nat ->
+    (forall v, alookup k (c_roots c) = Some v ->
+       honest_support (fun o => reported roots_kv acc o k v) B (Z.to_nat f + 1)) /\
+    (forall v, alookup k (c_onramp c) = Some v ->
+       honest_support (fun o => reported onramp_kv acc o k v) B (Z.to_nat f + 1)) /\
+    (forall v, alookup k (c_rmn c) = Some v ->
+       honest_support (fun o => reported (rmn_kv dest) acc o k v) B (Z.to_nat f + 1)) /\
+    (k = dest -> forall k' v, alookup k' (c_offramp c) = Some v ->
+       honest_support (fun o => reported offramp_kv acc o k' v) B (Z.to_nat f + 1)).
+Proof. exact mr_sound_byzantine. Qed.
+Print Assumptions C01_judge_mr_sound_byzantine.
+
+(* sink C01_disc. Premise of (a) = the hypothesis of C01_discovery *)
+Theorem C01_judge_disc_model_passes : forall F dest sync_fails aos,
+  dvalid_input aos ->
+  disc_ok (F, dest, sync_fails, aos) (disc_model (F, dest, sync_fails, aos)) = true.
+Proof. exact disc_model_passes. Qed.
+Print Assumptions C01_judge_disc_model_passes.
+
+(* an answer that passes disc_judge: Sync was called once with a c satisfying the five clauses of C01_discovery, and
+   Outcome's error is Sync's. Premise: the nonce-manager / RMN-remote address maps are Go maps (part of dvalid_input;
+   its other parts that matter are checked by disc_ok and returned here) *)
+Theorem C01_judge_disc_sound : forall F dest sync_fails aos o,
+  disc_ok (F, dest, sync_fails, aos) o = true ->
+  (forall o' ob, In (o', ob) aos -> NoDup (map fst (d_nonce ob)) /\ NoDup (map fst (d_rmn ob))) ->
+  NoDup (map fst aos) /\ (forall o' ob, In (o', ob) aos -> NoDup (map fst (d_fchain_obs ob))) /\
+  exists c, o = Ok (c, sync_fails) /\
+    (NoDup (map fst (dc_onramp c)) /\ NoDup (map fst (dc_nonce c)) /\ NoDup (map fst (dc_rmn c)) /\
+     NoDup (map fst (dc_feeq c)) /\ NoDup (map fst (dc_router c))) /\
+    forall k,
+      (forall a, alookup k (dc_onramp c) = Some a <->
+         exists fd, alookup dest (d_fchain_cons F aos) = Some fd /\ agreed_value onramp_dkv aos k (two_f_plus_1 fd) a) /\
+      (forall a, alookup k (dc_nonce c) = Some a <->
+         exists f, alookup k (d_fchain_cons F aos) = Some f /\ agreed_value (nonce_dkv dest) aos k (two_f_plus_1 f) a) /\
+      (forall a, alookup k (dc_rmn c) = Some a <->
+         exists f, alookup k (d_fchain_cons F aos) = Some f /\ agreed_value (rmn_dkv dest) aos k (two_f_plus_1 f) a) /\
+      (forall a, alookup k (dc_feeq c) = Some a <->
+         exists f, alookup k (d_fchain_cons F aos) = Some f /\ agreed_value feeq_dkv aos k (two_f_plus_1 f) a) /\
+      (forall a, alookup k (dc_router c) = Some a <->
+         exists f, alookup k (d_fchain_cons F aos) = Some f /\ agreed_value router_dkv aos k (two_f_plus_1 f) a).
+Proof. exact disc_sound. Qed.
+Print Assumptions C01_judge_disc_sound.
+
+(* the fChain disc_ok evaluates the thresholds with (not observable at Sync) is the agreed fChain of the theorems *)
+Theorem C01_judge_disc_fchain : forall F aos,
+  NoDup (map fst aos) -> (forall o ob, In (o, ob) aos -> NoDup (map fst (d_fchain_obs ob))) ->
+  forall k f, alookup k (d_fchain F aos) = Some f <-> agreed_value d_fchain_obs aos k (two_f_plus_1 F) f.
+Proof. exact d_fchain_iff. Qed.
+Print Assumptions C01_judge_disc_fchain.
+
+(* sink C01_plug. Premises of (a): one observation per oracle; FChain and the discovery maps are Go maps *)
+Theorem C01_judge_plug_model_passes : forall fresh F dest maxsize roles known aos,
+  NoDup (map fst aos) ->
+  (forall ao, In ao aos -> NoDup (map fst (o_fchain (fst (fst (snd ao))))) /\ dobs_wf (snd (fst (snd ao)))) ->
+  plug_ok (fresh, F, dest, maxsize, roles, known, aos) (plug_model (fresh, F, dest, maxsize, roles, known, aos)) = true.
+Proof. exact plug_model_passes. Qed.
+Print Assumptions C01_judge_plug_model_passes.
+
+(* an answer that passes plug_judge: the verdicts are those of the validation rules; over what was let through,
+   one oracle = one vote and the votes are designated; the merkle outcome (type, ranges, off-ramp next, RMN config id)
+   is that of a consensus observation rc satisfying the C01 clauses; the Sync argument satisfies C01_discovery.
+   Not observable at this level: the agreed roots (the outcome of this state carries none) *)
+Theorem C01_judge_plug_sound : forall fresh F dest maxsize roles known aos vs r,
+  plug_ok (fresh, F, dest, maxsize, roles, known, aos) (vs, r) = true ->
+  let acc := select (map (plug_validate roles known dest) aos) aos in
+  let macc := map plug_mr acc in
+  let dacc := map plug_disc acc in
+  NoDup (map fst aos) /\
+  vs = map (plug_validate roles known dest) aos /\
+  (forall k, NoDup (map fst (votes roots_kv macc k)) /\ NoDup (map fst (votes onramp_kv macc k)) /\
+             NoDup (map fst (votes offramp_kv macc k)) /\ NoDup (map fst (votes (rmn_kv dest) macc k))) /\
+  (forall o k,
+     (forall v, reported roots_kv macc o k v -> designated roles k o) /\
+     (forall v, reported onramp_kv macc o k v -> designated roles k o) /\
+     (forall v, reported offramp_kv macc o k v -> designated roles dest o) /\
+     (forall v, reported (rmn_kv dest) macc o k v -> k = dest /\ designated roles dest o)) /\
+  exists m d, r = Ok (m, d) /\
+    (exists rc, m = mro_of dest maxsize rc /\ consensus_clauses F dest macc rc) /\
+    ((forall o' ob, In (o', ob) dacc -> NoDup (map fst (d_nonce ob)) /\ NoDup (map fst (d_rmn ob))) ->
+     discovery_clauses F dest dacc d).
+Proof. exact plug_sound. Qed.
+Print Assumptions C01_judge_plug_sound.
+
+(* the consensus observation plug_ok compares with ("prescribed by the statement", distinct reporters counted
+   directly) satisfies the statement for every list of observations — no premise *)
+Theorem C01_judge_plug_spec_cons : forall F dest acc, consensus_clauses F dest acc (spec_cons F dest acc).
+Proof. exact (fun F dest acc => mr_result_spec_clauses F dest acc _ (spec_cons_spec F dest acc)). Qed.
+Print Assumptions C01_judge_plug_spec_cons.
+
+(* sink C01_quorum: the executable property is equality with the model (2F+1 attributed observations) *)
+Theorem C01_judge_quorum_model_passes : forall i : Z * Z * Z, Bool.eqb (quorum_model i) (quorum_model i) = true.
+Proof. exact quorum_model_passes. Qed.
+Print Assumptions C01_judge_quorum_model_passes.
+
+Theorem C01_judge_quorum_sound : forall n f cnt (o : bool),
+  Bool.eqb o (quorum_model (n, f, cnt)) = true -> (o = true <-> (2 * f + 1 <= cnt)%Z).
+Proof. exact quorum_sound. Qed.
+Print Assumptions C01_judge_quorum_sound.
